@@ -8,8 +8,31 @@ LEVEL = "other"
 ALLOCS = {"malloc", "calloc", "strdup", "strndup", "g_strdup", "g_malloc", "g_malloc0", "realloc"}
 
 
+def prepare(w):
+    """inline (once per run) the void static copy helpers of the getter unit into their callers: a field-by-field copy that was moved into a
+    shared helper is then still seen where the result object lives"""
+    if getattr(w, "_c17_prepared", False):
+        return w._c17_inlined
+    from .. import inline
+    P = w.P
+    done = {}
+    files = {f.relfile for f in P.repo_functions() if f.name in w.api and "getter" in f.relfile}
+    for f in list(P.repo_functions()):
+        if f.relfile not in files:
+            continue
+        def pred(g, f=f):
+            return g.internal and g.relfile == f.relfile and g.ret == "void" and g.name != f.name and g.name not in P.addr_taken() and any("*" in (p.get("type") or "") for p in g.params)
+        got = inline.inline_helpers(P, f.name, pred)
+        if got:
+            done[f.name] = got
+    w._c17_prepared = True
+    w._c17_inlined = done
+    return done
+
+
 def getters(w):
     P = w.P
+    prepare(w)
     out = []
     for name in sorted(w.api):
         f = P.functions.get(name)
@@ -164,6 +187,8 @@ def run(chk, w):
             # in a snapshot helper every element field is copied unconditionally (only the loop condition may guard it):
             # a copy that depends on another field of the entity makes the snapshot disagree with the single-entity getter
             if f.internal:
+                cond_of = {}
+                uncond = set()
                 for (i, off, sz) in stores:
                     extra = []
                     for (gd, truth) in rules.branch_conditions(f, i):
@@ -173,11 +198,19 @@ def run(chk, w):
                         if cnd.bb.id in f.loops():
                             continue
                         extra.append(cnd)
+                    ks = {k for k, (lo, s2, path, isp, dt) in enumerate(leaves) if off <= lo and lo + s2 <= off + sz}
                     if extra:
-                        lname = [leaves[k][2] for k, (lo, s2, path, isp, dt) in enumerate(leaves) if off <= lo and lo + s2 <= off + sz]
-                        chk.violation("C17-ELEM", f.name, "%s[].%s:conditional" % (a.get("var"), ",".join(lname[:2])), i.loc(),
-                                      "the snapshot copies %s only under a condition on the entity (line %d); the single-entity getter copies it always, so the two disagree" % (",".join(lname[:2]), extra[0].line))
-                        break
+                        for k in ks:
+                            cond_of.setdefault(k, (i, extra[0]))
+                    else:
+                        uncond |= ks
+                # a leaf that is also assigned unconditionally (e.g. NULL first, the allocation only when the count is not 0) is fine
+                bad = sorted(k for k in cond_of if k not in uncond)
+                if bad:
+                    i, cnd0 = cond_of[bad[0]]
+                    lname = [leaves[k][2] for k in bad]
+                    chk.violation("C17-ELEM", f.name, "%s[].%s:conditional" % (a.get("var"), ",".join(lname[:2])), i.loc(),
+                                  "the snapshot copies %s only under a condition on the entity (line %d); the single-entity getter copies it always, so the two disagree" % (",".join(lname[:2]), cnd0.line))
             if un:
                 names = [leaves[k][2] for k in sorted(un)]
                 chk.violation("C17-ELEM", f.name, "%s[].%s" % (a.get("var"), ",".join(names[:4])), "%s:%d" % (f.relfile, f.line),
